@@ -12,9 +12,9 @@ namespace Pool
 /-- the number of arenas changes only in a `get` that found the idle stack empty, and then by one -/
 theorem created_step {s s' st o} (e : step s st = .ok (s', o)) :
     (s'.created = s.created ∧ ∀ a, o ≠ .got a true) ∨
-    (∃ g, st = .get g true ∧ o = .got s.created true ∧ s.idle = [] ∧ s'.created = s.created + 1) := by
+    (∃ g, st = .get g .ok ∧ o = .got s.created true ∧ s.idle = [] ∧ s'.created = s.created + 1) := by
   cases st with
-  | get g ok =>
+  | get g c =>
     simp only [step] at e; unfold get at e
     split at e; · cases e
     split at e; · cases e
@@ -22,7 +22,8 @@ theorem created_step {s s' st o} (e : step s st = .ok (s', o)) :
     · cases e; left; exact ⟨rfl, by intro a h; cases h⟩
     · rename_i hidle
       split at e
-      · rename_i hok; cases e; right; exact ⟨g, by simp [hok], rfl, hidle, rfl⟩
+      · cases e; right; exact ⟨g, rfl, rfl, hidle, rfl⟩
+      · cases e; left; exact ⟨rfl, by intro a h; cases h⟩
       · cases e; left; exact ⟨rfl, by intro a h; cases h⟩
   | put g =>
     simp only [step] at e; unfold put at e
@@ -62,7 +63,7 @@ theorem created_step {s s' st o} (e : step s st = .ok (s', o)) :
 
 theorem live_step {s s' st o} (e : step s st = .ok (s', o)) : s'.live = liveAfter s.live (st, o) := by
   cases st with
-  | get g ok =>
+  | get g c =>
     simp only [step] at e; unfold get at e
     split at e; · cases e
     split at e; · cases e
@@ -71,6 +72,7 @@ theorem live_step {s s' st o} (e : step s st = .ok (s', o)) : s'.live = liveAfte
     · split at e
       · cases e; simp only [State.live, liveAfter, List.length_cons]; omega
       · cases e; simp only [liveAfter]
+      · cases e; simp only [State.live, liveAfter]
   | put g =>
     simp only [step] at e; unfold put at e
     split at e; · cases e
@@ -156,7 +158,7 @@ theorem arena_step {s s' st o} (e : step s st = .ok (s', o)) (hc : st.isClear = 
     s'.arenas a = s.arenas a ∨
     ∃ g t, st = .alloc g t ∧ arenaOf g s.owned = some a ∧ s'.arenas a = (s.arenas a).alloc t := by
   cases st with
-  | get g ok =>
+  | get g c =>
     simp only [step] at e; unfold get at e
     split at e; · cases e
     split at e; · cases e
@@ -255,7 +257,7 @@ theorem dropInv_step {s s' st o} (hi : Inv s) (hd : DropInv s) (e : step s st = 
   · -- contents may grow, drop counters stay 0, the pool stays alive
     have hdr : s'.dropped = false := by
       cases st with
-      | get g ok =>
+      | get g c =>
         simp only [step] at e; unfold get at e
         split at e; · cases e
         split at e; · cases e
@@ -287,7 +289,7 @@ theorem dropInv_step {s s' st o} (hi : Inv s) (hd : DropInv s) (e : step s st = 
       · rw [h]; simp only [Arena.alloc]; exact h0 a
     exact ⟨fun _ => hz, fun a => by rw [hz a]; omega⟩
   · cases st with
-    | get g ok => simp [Step.isClear] at hc
+    | get g c => simp [Step.isClear] at hc
     | put g => simp [Step.isClear] at hc
     | forget g => simp [Step.isClear] at hc
     | alloc g t => simp [Step.isClear] at hc
@@ -340,5 +342,111 @@ theorem dropInv_run : ∀ {h : List Step} {s s'}, Inv s → DropInv s → run s 
     · rename_i s1 o1 h1
       exact dropInv_run (inv_step hi h1) (dropInv_step hi hd h1) e
     · cases e
+
+/-! ### the poison flag of the mutex is irrelevant -/
+
+/-- a step result with the poison flag erased -/
+def erase (r : State × Out) : State × Out := (r.1.unpoison, r.2)
+
+/-- no step looks at the poison flag: from the un-poisoned twin of a state every step gives the same
+    verdict, the same output and the same successor (up to the flag) -/
+theorem step_unpoison (s : State) (st : Step) : (step s.unpoison st).map erase = (step s st).map erase := by
+  cases st with
+  | get g c =>
+    simp only [step, get, State.unpoison]
+    by_cases hd : s.dropped = true
+    · simp [hd]
+    · by_cases hu : (arenaOf g s.owned).isSome = true
+      · simp [hd, hu]
+      · cases hi : s.idle with
+        | nil => cases c <;> simp [hd, hu, hi, Except.map, erase, State.unpoison]
+        | cons a rest => simp [hd, hu, Except.map, erase, State.unpoison]
+  | put g =>
+    simp only [step, put, State.unpoison]
+    by_cases hd : s.dropped = true
+    · simp [hd]
+    · cases ht : takeOut g s.owned with
+      | none => simp [hd]
+      | some r => simp [hd, Except.map, erase, State.unpoison]
+  | forget g =>
+    simp only [step, forget, State.unpoison]
+    by_cases hd : s.dropped = true
+    · simp [hd]
+    · cases ht : takeOut g s.owned with
+      | none => simp [hd]
+      | some r => simp [hd, Except.map, erase, State.unpoison]
+  | alloc g t =>
+    simp only [step, alloc, State.unpoison]
+    by_cases hd : s.dropped = true
+    · simp [hd]
+    · cases ht : arenaOf g s.owned with
+      | none => simp [hd]
+      | some r => simp [hd, Except.map, erase, State.unpoison]
+  | reset =>
+    simp only [step, forAll, State.unpoison]
+    by_cases hd : s.dropped = true
+    · simp [hd]
+    · by_cases ho : (!s.owned.isEmpty) = true
+      · simp [hd, ho]
+      · simp [hd, ho, Except.map, erase, State.unpoison]
+  | resetToStart =>
+    simp only [step, forAll, State.unpoison]
+    by_cases hd : s.dropped = true
+    · simp [hd]
+    · by_cases ho : (!s.owned.isEmpty) = true
+      · simp [hd, ho]
+      · simp [hd, ho, Except.map, erase, State.unpoison]
+  | drop =>
+    simp only [step, dropPool, forAll, State.unpoison]
+    by_cases hd : s.dropped = true
+    · simp [hd]
+    · by_cases ho : (!s.owned.isEmpty) = true
+      · simp [hd, ho]
+      · simp [hd, ho, Except.map, erase, State.unpoison]
+
+theorem step_congr {s t : State} (h : s.unpoison = t.unpoison) (st : Step) :
+    (step s st).map erase = (step t st).map erase := by
+  rw [← step_unpoison s, ← step_unpoison t, h]
+
+/-- a history result with the poison flag erased -/
+def erase' (r : State × List (Step × Out)) : State × List (Step × Out) := (r.1.unpoison, r.2)
+
+theorem runLog_congr : ∀ (h : List Step) {s t : State}, s.unpoison = t.unpoison →
+    (runLog s h).map erase' = (runLog t h).map erase'
+  | [], s, t, e => by simp [runLog, Except.map, erase', e]
+  | st :: rest, s, t, e => by
+    have hc := step_congr e st
+    unfold runLog
+    cases hs : step s st with
+    | error x =>
+      cases ht : step t st with
+      | error y => rw [hs, ht] at hc; simp only [Except.map] at hc; cases hc; rfl
+      | ok r => rw [hs, ht] at hc; simp only [Except.map] at hc; cases hc
+    | ok r =>
+      cases ht : step t st with
+      | error y => rw [hs, ht] at hc; simp only [Except.map] at hc; cases hc
+      | ok r' =>
+        rw [hs, ht] at hc
+        simp only [Except.map, erase, Except.ok.injEq, Prod.mk.injEq] at hc
+        obtain ⟨s1, o1⟩ := r
+        obtain ⟨t1, o2⟩ := r'
+        simp only at hc
+        obtain ⟨h1, h2⟩ := hc
+        subst h2
+        have ih := runLog_congr rest h1
+        simp only
+        cases h3 : runLog s1 rest with
+        | error x =>
+          cases h4 : runLog t1 rest with
+          | error y => rw [h3, h4] at ih; simp only [Except.map] at ih; cases ih; rfl
+          | ok q => rw [h3, h4] at ih; simp only [Except.map] at ih; cases ih
+        | ok q =>
+          cases h4 : runLog t1 rest with
+          | error y => rw [h3, h4] at ih; simp only [Except.map] at ih; cases ih
+          | ok q' =>
+            rw [h3, h4] at ih
+            simp only [Except.map, erase', Except.ok.injEq, Prod.mk.injEq] at ih
+            simp only [Except.map, erase', Except.ok.injEq, Prod.mk.injEq, List.cons.injEq, true_and]
+            exact ih
 
 end Pool
